@@ -12,12 +12,19 @@ ap.add_argument("k")
 ap.add_argument("--props", default="")
 ap.add_argument("--skip-verify", action="store_true")
 ap.add_argument("--patch", default=None)
+ap.add_argument("--verif", default=None, help="directory of the /verif snapshot whose checks are run")
 a = ap.parse_args()
 wt = os.path.abspath(a.wt)
 out = os.path.join(wt, "OUT", a.k)
 patch = a.patch or os.path.join(out, "patch.diff")
-VERIF = os.path.dirname(os.path.dirname(os.path.abspath(__file__)))
+VERIF = a.verif or os.path.dirname(os.path.dirname(os.path.abspath(__file__)))
 res = {"worktree": wt, "k": a.k, "steps": {}}
+prev_path = "/tmp/seed/results/%s_%s.json" % (os.path.basename(wt), a.k)
+if a.skip_verify and os.path.exists(prev_path):
+    try:
+        res["steps"] = json.load(open(prev_path))["steps"]
+    except Exception:
+        pass
 
 
 def sh(cmd, cwd=wt, env=None, timeout=3600):
@@ -33,6 +40,8 @@ def clean():
 clean()
 rc, o, t = sh("git apply --check %s && git apply %s" % (patch, patch))
 res["steps"]["apply"] = rc
+res["verif_commit"] = subprocess.run("git -C /verif log --oneline -1", shell=True, capture_output=True, text=True).stdout.strip()
+res["repo_commit"] = subprocess.run("git -C %s log --oneline -1" % wt, shell=True, capture_output=True, text=True).stdout.strip()
 if rc != 0:
     print(o)
     print(json.dumps(res))
